@@ -214,6 +214,44 @@ def shutdownActs (f : CFlags) (peersOk rmOk : Bool) : CFlags × List Act :=
     let a3 : List Act := if f1.removed && f1.ready then [.clean] else []
     ({ f1 with shutdown := true }, a1 ++ [.consShutdown] ++ a3 ++ [.done])
 
+/-! ### the Raft data folder and its rotated backups (raft.go `CleanupRaft`, data_helper.go `makeBackup`) -/
+structure Disk where
+  data : Bool      -- the data folder holds raft.db and/or snapshots
+  snap : Bool      -- it holds at least one snapshot (only then a backup is made)
+  backups : Nat    -- <folder>.old.0 … <folder>.old.(backups-1) exist
+  deriving DecidableEq, Repr
+
+/-- `dataBackupHelper.makeBackup` with `keep` = backups_rotate ≥ 1: when `keep` copies are listed the oldest is removed
+    (`os.RemoveAll`), the others are renamed one up, the data folder becomes `.old.0` -/
+def makeBackup (keep : Nat) (d : Disk) : Disk :=
+  { data := false, snap := false, backups := if keep ≤ d.backups then d.backups else d.backups + 1 }
+
+/-- `CleanupRaft(cfg)`. No snapshot: the folder is removed outright (`os.RemoveAll`), else it is rotated away.
+    `slash`: `data_folder` was configured with a trailing slash — since fix b8a019e `newDataBackupHelper` cleans the
+    path first, so it makes no difference (before, `filepath.Dir`/`Base` named a folder inside the data folder and
+    nothing was moved); the parameter stays as a regression dimension of the scripts. -/
+def cleanupRaft (keep : Nat) (_slash : Bool) (d : Disk) : Disk :=
+  if !d.snap then { d with data := false }
+  else makeBackup keep d
+
+/-- what `Clean` may leave behind for a peer with `prev` backups, with and without a snapshot in its folder:
+    (data folder emptied, number of backups) -/
+def cleanOutcomes (keep : Nat) (slash : Bool) (prev : Nat) : List (Bool × Nat) :=
+  [false, true].map (fun sn =>
+    let d' := cleanupRaft keep slash { data := true, snap := sn, backups := prev }
+    (!d'.data, d'.backups))
+
+inductive DiskOp where
+  | write (snap : Bool)   -- the peer runs again on this folder (joins, logs, possibly snapshots)
+  | clean                 -- it is removed: Shutdown + Clean
+  deriving DecidableEq, Repr
+
+def diskStep (keep : Nat) (slash : Bool) (d : Disk) : DiskOp → Disk
+  | .write sn => { d with data := true, snap := sn }
+  | .clean => cleanupRaft keep slash d
+
+def runDisk (keep : Nat) (slash : Bool) (d : Disk) (ops : List DiskOp) : Disk := ops.foldl (diskStep keep slash) d
+
 /-! ### Cluster.PeerRemove (cluster.go) -/
 inductive Call where
   | logPin (p : Pin)
@@ -241,7 +279,7 @@ inductive Op where
   | sync (j : Nat) (res : SyncRes)
   | stop (j : Nat)
   | restart (j : Nat)
-  | clean (j : Nat) (gone : Bool)
+  | clean (j : Nat) (gone : Bool) (nb : Nat)
   -- full-cluster suite
   | join (j via : Nat) (res : Res) (pins : PinMap)
   | peerRm (at_ p : Nat) (res : Res) (calls : List Call)
@@ -259,7 +297,21 @@ structure MState where
   running : List Nat     -- peers whose process is up (sorted set)
   departed : List Nat    -- cluster suite: peers expected to have stopped themselves and discarded their Raft data
   wiped : List Nat       -- cluster suite: peers whose Raft data folder was rotated away
+  backups : List (Nat × Nat)   -- consensus suite: rotated copies next to each peer's data folder (absent = 0)
   deriving Repr
+
+/-- configuration of every peer of a script -/
+structure Env where
+  keep : Nat      -- backups_rotate
+  slash : Bool    -- data_folder written with a trailing slash
+  deriving Repr
+
+def backupsOf (l : List (Nat × Nat)) (j : Nat) : Nat :=
+  match l.find? (fun x => x.1 == j) with
+  | some x => x.2
+  | none => 0
+
+def setBackups (j nb : Nat) (l : List (Nat × Nat)) : List (Nat × Nat) := (j, nb) :: l.filter (fun x => x.1 != j)
 
 def MState.cfg (s : MState) : Config := cfgAt s.log
 def MState.ids (s : MState) : List Nat := cfgIds s.cfg
@@ -271,7 +323,7 @@ def canonPin (p : Pin) : Pin := { p with opts := { p.opts with metadata := normM
 def canonMap (m : PinMap) : PinMap := m.map canonPin
 
 def initState (tier : Tier) (repin : Bool) (init : List Nat) : MState :=
-  { tier := tier, repin := repin, log := [.boot init], running := normPeers init, departed := [], wiped := [] }
+  { tier := tier, repin := repin, log := [.boot init], running := normPeers init, departed := [], wiped := [], backups := [] }
 
 /-- a call issued at peer `at_` in a healthy cluster. At a running member the outcome is determined;
     at a peer outside the configuration (a removed peer still running) either outcome is possible:
@@ -330,7 +382,7 @@ def callEntries : List Call → List Entry
   | .rmPeer _ :: rest => callEntries rest
 
 /-- one step of the script: `none` = the recorded outcome is not one the model allows -/
-def step (s : MState) : Op → Option MState
+def step (e : Env) (s : MState) : Op → Option MState
   | .start j =>
     if s.running.contains j then none
     else some { s with running := insertPeer j s.running, wiped := erasePeer j s.wiped }   -- a fresh staging instance
@@ -355,7 +407,10 @@ def step (s : MState) : Op → Option MState
     -- a peer whose data folder was rotated away (it left) does not come back by a restart: it has to join afresh
     if s.wiped.contains j then none
     else some { s with running := insertPeer j s.running, departed := erasePeer j s.departed }
-  | .clean j gone => if gone then some { s with running := erasePeer j s.running } else none
+  | .clean j gone nb =>
+    if (cleanOutcomes e.keep e.slash (backupsOf s.backups j)).contains (gone, nb) then
+      some { s with running := erasePeer j s.running, backups := setBackups j nb s.backups }
+    else none
   | .join j via res pins =>
     if s.member via && !s.running.contains j && !cfgHas s.cfg j && res == .ok then
       let log' := s.log ++ [.addVoter j]
@@ -384,10 +439,10 @@ def step (s : MState) : Op → Option MState
       else none
     else none
 
-def replay (s : MState) : List Op → Option MState
+def replay (e : Env) (s : MState) : List Op → Option MState
   | [] => some s
-  | op :: rest => match step s op with
-    | some s' => replay s' rest
+  | op :: rest => match step e s op with
+    | some s' => replay e s' rest
     | none => none
 
 /-! ### observations at a sync point (every member caught up) -/
@@ -408,11 +463,13 @@ structure Case where
   repin : Bool
   retries : Nat
   init : List Nat
+  keep : Nat
+  slash : Bool
   ops : List Op
   obs : Obs
 
 /-- what the model allows the members to report once everybody has caught up -/
-def obsOk (s : MState) (o : Obs) : Bool :=
+def obsOk (_e : Env) (s : MState) (o : Obs) : Bool :=
   o.members.all (fun m =>
     !s.member m.id ||
       (m.peers == s.ids && canonMap m.pins == canonMap s.pins && m.nonvoters == cfgNonvoters s.cfg)) &&
@@ -420,8 +477,8 @@ def obsOk (s : MState) (o : Obs) : Bool :=
   s.departed.all (fun j => o.gone.any (fun g => g.1 == j && g.2.1 && g.2.2))
 
 def allowed (k : Case) : Bool :=
-  match replay (initState k.tier k.repin k.init) k.ops with
-  | some s => obsOk s k.obs
+  match replay ⟨k.keep, k.slash⟩ (initState k.tier k.repin k.init) k.ops with
+  | some s => obsOk ⟨k.keep, k.slash⟩ s k.obs
   | none => false
 
 end CV.C17
